@@ -79,6 +79,8 @@ pub enum WOp {
     Import(usize),
     Migrate,          // export words/ignored/config -> new Linter -> import
     ReimportIgnored,  // export -> clear -> import
+    SnapshotIgnored,  // keep the current export aside (e.g. another tab's copy)
+    ImportSnapshot,   // import that older snapshot into the current state: must MERGE, not replace
     SetConfig(usize),
 }
 
@@ -90,7 +92,7 @@ pub const W_TEXTS: &[&str] = &[
     "tset Tset teh",
     "i am going to to the colour store",
 ];
-pub const W_WORDS: &[&[&str]] = &[&["tset"], &["Tset", "teh"]];
+pub const W_WORDS: &[&[&str]] = &[&["tset"], &["Tset", "teh"], &[]];
 pub const W_CFGS: &[&str] = &[
     r#"{"SpellCheck": false}"#,
     r#"{"SpellCheck": true, "AnA": false, "NoSuchRule": true}"#,
@@ -113,6 +115,9 @@ pub fn wops() -> Vec<WOp> {
         WOp::Apply(1, 1),
         WOp::Import(0),
         WOp::Import(1),
+        WOp::Import(2),
+        WOp::SnapshotIgnored,
+        WOp::ImportSnapshot,
         WOp::Migrate,
         WOp::ReimportIgnored,
         WOp::SetConfig(0),
@@ -204,6 +209,7 @@ pub fn run_w_history_in(ops: &[WOp], seq: &[usize], cache: &mut RefCache, di: us
     let mut ignored: Vec<IgnoredEntry> = vec![];
     let mut last: Option<(String, bool, Vec<harper_wasm::Lint>)> = None;
     let mut prev: Option<(String, bool, Vec<harper_wasm::Lint>)> = None;
+    let mut snapshot: Option<String> = None;
     let mut steps = 0u64;
     let mut interesting = false;
     for (si, oi) in seq.iter().enumerate() {
@@ -364,6 +370,14 @@ pub fn run_w_history_in(ops: &[WOp], seq: &[usize], cache: &mut RefCache, di: us
                 Ok(n) => real = n,
                 Err(e) => return (Some(("migrate-failed".into(), json!({"step": si, "error": e}))), steps, true),
             },
+            WOp::SnapshotIgnored => snapshot = Some(real.export_ignored_lints()),
+            WOp::ImportSnapshot => {
+                // the union of the current list and an older copy of it is the current list
+                let Some(js) = &snapshot else { continue };
+                if let Err(e) = real.import_ignored_lints(js.clone()) {
+                    return (Some(("import-ignored-failed".into(), json!({"step": si, "json": js, "error": e}))), steps, true);
+                }
+            }
             WOp::ReimportIgnored => {
                 let js = real.export_ignored_lints();
                 real.clear_ignored_lints();
@@ -400,6 +414,8 @@ fn describe_w(ops: &[WOp], seq: &[usize]) -> Value {
             WOp::Import(w) => format!("import_words({:?})", W_WORDS[*w]),
             WOp::Migrate => "export words+ignored+config -> new Linter -> import".to_string(),
             WOp::ReimportIgnored => "export_ignored -> clear -> import_ignored".to_string(),
+            WOp::SnapshotIgnored => "snapshot = export_ignored_lints()".to_string(),
+            WOp::ImportSnapshot => "import_ignored_lints(snapshot)".to_string(),
             WOp::SetConfig(c) => format!("set_lint_config_from_json({})", W_CFGS[*c]),
         }
     }).collect::<Vec<_>>(), "ops": seq})
@@ -414,6 +430,23 @@ pub fn run_c16(tier: Tier) -> i32 {
     seqs.retain(|s| s.iter().any(|o| matches!(ops[*o], WOp::Lint(..))) || s.len() <= 1);
     // one level deeper for the shape "lint, ignore, <any operation>, lint the same text again"
     // (does anything make an ignored lint come back?)
+    // "snapshot the (empty) ignore list, lint, ignore, import the snapshot, lint again": importing
+    // an older list must not take anything away
+    {
+        let sn = ops.iter().position(|o| matches!(o, WOp::SnapshotIgnored)).unwrap();
+        let im = ops.iter().position(|o| matches!(o, WOp::ImportSnapshot)).unwrap();
+        for (li, l) in ops.iter().enumerate() {
+            if !matches!(l, WOp::Lint(..)) {
+                continue;
+            }
+            for (ii, i) in ops.iter().enumerate() {
+                if matches!(i, WOp::Ignore(..)) {
+                    seqs.push(vec![sn, li, ii, im, li]);
+                    seqs.push(vec![li, ii, sn, li, ii, im, li]);
+                }
+            }
+        }
+    }
     if tier == Tier::Quick {
         for (li, l) in ops.iter().enumerate() {
             if !matches!(l, WOp::Lint(..)) {
@@ -504,7 +537,7 @@ pub fn run_c16(tier: Tier) -> i32 {
     report.set("exhaustive", true);
     report.sample(describe_w(&ops, &[11, 5, 7]));
     report.sample(describe_w(&ops, &[1, 0, 13]));
-    report.assume("operation alphabet of 19 calls over 6 texts, depth bound as stated (American dialect; the other three dialects one level shallower); states = distinct histories (the history is the state; live objects cannot be hashed)");
+    report.assume("operation alphabet of 22 calls over 6 texts, depth bound as stated (American dialect; the other three dialects one level shallower); states = distinct histories (the history is the state; live objects cannot be hashed)");
     report.assume("reference = fresh core pipeline per query with one dictionary child per user word");
     report.finish()
 }
